@@ -220,11 +220,13 @@ theorem ordered_success_sound (h : σ → α) (c : α) (bs : List (List (Wrapped
 
 /-- hence whatever the wrapped sampler guarantees for its successes (`good`: in bounds, cost below
 the bound — `sample_success_sound`, `rejection_success_sound`) holds for the ordered sampler's successes;
-and it returns `false` only when a whole batch of wrapped calls failed. -/
+and it returns `false` only when the whole batch of wrapped calls failed OR the best of the batch drawn for
+this very `maxCost` is not below it (the `freshBatch` return of d1f394c05, F144). -/
 theorem ordered_success_inherits (h : σ → α) (c : α) (good : σ → Prop)
     (bs : List (List (Wrapped σ))) (hw : ∀ b ∈ bs, ∀ w ∈ b, w.1 = true → good w.2) :
     (∀ t q, orderedSample h c bs = .found t q → good t ∧ h t < c) ∧
-    (orderedSample h c bs = .failed → ∃ b ∈ bs, ∀ w ∈ b, w.1 = false) :=
+    (orderedSample h c bs = .failed → ∃ b, bs.head? = some b ∧
+      ((∀ w ∈ b, w.1 = false) ∨ ∃ t, argBest h ((b.filter (·.1)).map (·.2)) = some t ∧ ¬ h t < c)) :=
   ⟨fun t q hs => PhsLogic.ordered_success_good h c good bs hw t q hs, PhsLogic.ordered_failed_batch h c bs⟩
 
 /-- **Defect F35 (code before 4bc34ddf9)**: `createBatch` ignored the wrapped sampler's return value,
@@ -446,19 +448,33 @@ theorem reported_measure_is_lebesgue_volume (n : ℕ) (f1 f2 : List ℝ) (h1 : f
 
 
 /-- **OrderedInfSampler with its persistent queue** [AF] (`orderedRun`: the state machine the driver runs in
-lock-step with the real class over scripted draws): if every state already queued is `good` and every
-SUCCESSFUL wrapped call of `createBatch` yields a `good` state, then a `true` return yields a `good` state
-that passes the cost test for the CURRENT bound, and the queue left behind is again all `good` — so the
-guarantee composes over any number of successive calls with changing bounds; `false` is returned only
-when a whole batch of wrapped calls failed. -/
+lock-step with the real class over scripted draws; fixed code incl. the `freshBatch` return of d1f394c05, so the
+loop needs no fuel: it always returns): if every state already queued is `good` and every SUCCESSFUL wrapped call
+of `createBatch` yields a `good` state, then a `true` return yields a `good` state that passes the cost test for the
+CURRENT bound, and the queue left behind is again all `good` — so the guarantee composes over any number of
+successive calls with changing bounds; `false` is returned only when the whole fresh batch failed OR the best of the
+batch drawn for this very bound is not below it. -/
 theorem ordered_queue_sound {α : Type} [Num α] {σ S : Type} (h : σ → α) (c : α)
     (mk : S → Option (List (Wrapped σ) × S)) (good : σ → Prop)
     (hmk : ∀ s b s', mk s = some (b, s') → ∀ w ∈ b, w.1 = true → good w.2)
-    (fuel : Nat) (q : List σ) (s : S) (hq : ∀ x ∈ q, good x) :
-    (∀ t rest s', orderedRun h c mk fuel q s = .found t rest s' → good t ∧ h t < c ∧ ∀ x ∈ rest, good x) ∧
-    (∀ s', orderedRun h c mk fuel q s = .failed s' → ∃ s0 b, mk s0 = some (b, s') ∧ ∀ w ∈ b, w.1 = false) :=
-  ⟨fun t rest s' hr => PhsOrdered.orderedRun_sound h c mk good hmk fuel q s hq t rest s' hr,
-   fun s' hr => PhsOrdered.orderedRun_failed h c mk fuel q s s' hr⟩
+    (q : List σ) (s : S) (hq : ∀ x ∈ q, good x) :
+    (∀ t rest s', orderedRun h c mk q s = .found t rest s' → good t ∧ h t < c ∧ ∀ x ∈ rest, good x) ∧
+    (∀ s', orderedRun h c mk q s = .failed s' → ∃ s0 b, mk s0 = some (b, s') ∧
+      ((∀ w ∈ b, w.1 = false) ∨
+        ∃ t rest, popBest h ((b.filter (·.1)).map (·.2)) = some (t, rest) ∧ ¬ h t < c)) :=
+  ⟨fun t rest s' hr => PhsOrdered.orderedRun_sound h c mk good hmk q s hq t rest s' hr,
+   fun s' hr => PhsOrdered.orderedRun_failed h c mk q s s' hr⟩
+
+/-- **Defect F144 (code before d1f394c05)**: when no sample can beat `maxCost` (constant-reject stream: every batch
+holds a successful sample whose cost is not below the bound) the old loop never returns — for EVERY number of loop
+passes / supplied batches the model of the old code is still looping (`.starved`) — while the fixed code returns
+`false` on the first fresh batch. -/
+theorem ordered_old_loops_forever {α : Type} [Num α] {σ : Type} (h : σ → α) (c : α) (t : σ) (ht : ¬ h t < c) :
+    (∀ fuel : Nat, orderedRunOld h c (fun _ : Unit => some ([(true, t)], ())) fuel [] () = .starved) ∧
+    (∀ n : Nat, orderedSampleLoop h c (List.replicate n [(true, t)]) = .starved) ∧
+    (∃ s', orderedRun h c (fun _ : Unit => some ([(true, t)], ())) [] () = .failed s') := by
+  refine ⟨PhsOrdered.orderedRunOld_loops h c t ht, PhsLogic.ordered_old_loops h c t ht, ⟨(), ?_⟩⟩
+  simp [orderedRun, orderedFresh, popBest, ht]
 
 /-! ## Non-vacuity (Proofs/PhsNonvac.lean): the hypotheses of the theorems above are jointly satisfiable -/
 
@@ -471,7 +487,7 @@ example : phsMeasure 2 (6 : ℝ) 10 = some (Real.pi * 5 * 4) := PhsNonvac.ex_mea
 example {α : Type} [Num α] {σ : Type} (h : σ → α) (c : α) (t : σ) (ht : h t < c) :
     orderedSample h c [[(true, t)]] = .found t [t] := PhsNonvac.ordered_one_success h c t ht
 example {α : Type} [Num α] {σ : Type} (h : σ → α) (c : α) (t : σ) (ht : h t < c) :
-    orderedRun h c (fun _ : Unit => some ([(true, t)], ())) 1 [] () = .found t [] () :=
+    orderedRun h c (fun _ : Unit => some ([(true, t)], ())) [] () = .found t [] () :=
   PhsNonvac.orderedRun_one_success h c t ht
 example {α : Type} [Num α] {ρ : Type} (h : List α × ρ → α) (c : α) (d : Draw α ρ) (cur : List α × ρ)
     (hd : h (d.baseInf, d.baseRest) < c) :
